@@ -254,6 +254,10 @@ def check_script(text):
         problems.append("undeclared symbol %s" % h)
         return None
 
+    soft_ids = set()
+    for c in cmds:
+        if isinstance(c, list) and c and c[0] == "assert-soft" and ":id" in c:
+            soft_ids.add(c[c.index(":id") + 1])
     for c in cmds:
         if not isinstance(c, list) or not c:
             problems.append("stray token %r" % (c,))
@@ -289,6 +293,8 @@ def check_script(text):
             if s not in ("Bool", None):
                 problems.append("assert-soft of sort %s" % s)
         elif k in ("minimize", "maximize"):
+            if isinstance(c[1], str) and c[1] in soft_ids:
+                continue            # OptiMathSAT: the objective named by the :id of the soft constraints
             s = sort_of(c[1])
             if s not in ("Int", None):
                 problems.append("%s of sort %s" % (k, s))
